@@ -59,6 +59,10 @@ def run(ctx) -> None:
              "made in the same loop iteration (never a cached or shared scope that would accumulate other components' variables)")
     ctx.rule("C03.R2-naming-agreement", "replica component names and replica references use the same format and index; "
                                         "indices run over range(count); variables['replica'] is the index")
+    ctx.rule("C03.R11-memo-keys-cover-what-varies", "a local memo 'if K not in D: D[K] = f(args)' inside the replication functions mentions in K every "
+             "argument of f that changes between the iterations: a reference parsed once per TEXT is wrong for a relative reference, which "
+             "means another producer in another owner stage - propagate_replicate (who replicates) and apply_replicate (what is rewritten) "
+             "then disagree")
     ctx.rule("C03.R10-replica-rewrite-covers-the-component", "compile_component_replica applies its reference translation to the whole component "
              "(replace_strings over the copy of the component itself), or - field by field - to at least references, command, variables, "
              "executors AND override: the per-platform override mirrors every other field and is layered back on top when the "
@@ -309,6 +313,26 @@ def run(ctx) -> None:
                    "copy gets the file the consumer asked for" % ("".join(sorted(seg)), ", ".join(repr(x) for x in missing)),
                    construct="compile_component_aggregate: path class after an aggregated reference")
     ctx.floor("C03.R9-aggregate-expands-every-occurrence", n_sfx, 1, "patterns that repeat the path following an aggregated reference")
+
+    # ---- R11: memo keys
+    from vlib import state as _state
+    n11 = 0
+    n11_fn = 0
+    for q_ in ("FlowIR.propagate_replicate", "FlowIR.apply_replicate", "FlowIR.compile_component_replica", "FlowIR.compile_component_aggregate"):
+        f_ = m.func(q_)
+        n11_fn += 1
+        for (st_, table_, key_, missing_) in _state.memo_key_gaps(f_):
+            n11 += 1
+            ctx.ob("C03.R11-memo-keys-cover-what-varies", st_, not missing_,
+                   "%s: the memo %s[%s] is keyed by everything that varies" % (q_, table_, key_) if not missing_ else
+                   "%s memoises %s under the key %s although the call also depends on %s, which changes from one component to the next: the first "
+                   "owner of a reference text decides which stage every later identical text points to - with the same name in two stages and "
+                   "the relative spelling 'Gen:ref' in both, the region that is replicated and the references that are rewritten disagree"
+                   % (q_, short(st_.value, 50), key_, ", ".join(missing_)), construct="%s: %s[%s] <- key covers the varying arguments" % (q_, table_, key_))
+    if n11 == 0:
+        ctx.ob("C03.R11-memo-keys-cover-what-varies", m.func("FlowIR.propagate_replicate"), True,
+               "the replication functions keep no local memo (%d functions inspected)" % n11_fn, construct="replication functions: no local memo", trivial=True)
+    ctx.floor("C03.R11-memo-keys-cover-what-varies", n11_fn, 4, "replication functions inspected for local memos")
 
     # ---- R10: what the translation is applied to
     REQUIRED = {"references", "command", "variables", "executors", "override"}
